@@ -48,8 +48,8 @@ PARTIAL = ['Schulze sole-winner monotonicity: REFUTED for votelib\'s ranking by 
            'vote monotonicity with zero-vote parties or when the larger run ends in a tie or with caps exhausted: relational checker only',
            'positional rules: proved for every built-in scorer that is non-increasing along the ballot - all of Borda, Dowdall, modified Borda, fixed top; Geometric with base >= 1; '
            'SequenceBased with a non-increasing sequence ending non-negative (C17_scorer_ok, C17_positional_any); refuted otherwise (C17_scorers_conditions_needed); ballots of plain ranks',
-           'Copeland / minimax on ballots: proved through the converter model for a winner on a rank of its own moving up (C17_copeland_ballots, C17_minimax_ballots); adding a ballot and '
-           'leaving a shared rank are checker-decided']
+           'Copeland / minimax on ballots: proved through the converter model for a winner moving up from a rank of its own or out of a shared rank (C17_copeland_ballots, C17_minimax_ballots, '
+           'C17_copeland_ballots_leave, C17_minimax_ballots_leave; unranked_at_bottom=True, the default); an ADDED ballot and an unranked winner being ranked are checker-decided']
 TRUSTED = []
 ASSUMPTIONS = ['a "single ballot" is one unit of weight of one ballot type of the profile dictionary']
 
@@ -720,13 +720,24 @@ PAIRWISE_MONO = ['copeland_raw', 'copeland_2o', 'minimax_winvotes', 'minimax_mar
 def rc_move_check(ctx, stream, case):
     """the theorem's statement on the implementation: moving w (on a rank of its own) up past the items b[j:i] of ballot bi, for x units
     of that ballot, adds x * (number of times c was jumped) to count(w, c), takes the same from count(c, w), changes nothing else and keeps
-    the candidates of the dictionary; a sole Copeland / minimax winner w stays the sole winner.  -> True if it fails"""
+    the candidates of the dictionary; a sole Copeland / minimax winner w stays the sole winner.  With `member`: w leaves the shared rank b[i]
+    for a place of its own at j <= i - count(w, c) also rises by x for every other member c of that rank (C17_ballot_leave_exact; the
+    candidate set is compared when the old dictionary is not empty).  -> True if it fails"""
     import evalreg
     prof, bi, i, j, x = case['profile'], case['ballot'], case['i'], case['j'], case['x']
     b = prof[bi][0]
-    w = b[i]
-    jumped = rc_flat(b[j:i])
-    b2 = b[:j] + [w] + b[j:i] + b[i + 1:]
+    if case.get('member') is not None:
+        # w leaves the shared rank b[i] for a place of its own at j <= i (C17_ballot_leave_exact, then C17_ballot_pairwise_exact)
+        w = case['member']
+        rest = [k for k in b[i] if k != w]
+        jumped = rc_flat(b[j:i])
+        below = rest
+        b2 = b[:j] + [w] + b[j:i] + ([rest[0]] if len(rest) == 1 and case.get('plain_rest') else [rest]) + b[i + 1:]
+    else:
+        w = b[i]
+        jumped = rc_flat(b[j:i])
+        below = []
+        b2 = b[:j] + [w] + b[j:i] + b[i + 1:]
     p2 = rc_replace(prof, bi, b2, x)
     r0 = common.call_impl(lambda: rc_convert(prof), 10)
     r1 = common.call_impl(lambda: rc_convert(p2), 10)
@@ -738,15 +749,15 @@ def rc_move_check(ctx, stream, case):
         return False
     d0, d1 = r0[1], r1[1]
     why = None
-    if w in jumped:
+    if w in jumped or w in below:
         return False          # outside the statement (w ranked twice)
     for (a, c) in set(d0) | set(d1):
-        exp = d0.get((a, c), 0) + x * ((1 if a == w else 0) * jumped.count(c) - jumped.count(a) * (1 if c == w else 0))
+        exp = d0.get((a, c), 0) + x * ((1 if a == w else 0) * (jumped.count(c) + below.count(c)) - jumped.count(a) * (1 if c == w else 0))
         if d1.get((a, c), 0) != exp:
             why = 'count(%s, %s) is %s after %s moved up past %s on %d unit(s) of ballot %s, expected %s (was %s)' % (
                 cname(a), cname(c), d1.get((a, c), 0), cname(w), jumped, x, b, exp, d0.get((a, c), 0))
             break
-    if not why and {k for pr in d0 for k in pr} != {k for pr in d1 for k in pr}:
+    if not why and (d0 or not below) and {k for pr in d0 for k in pr} != {k for pr in d1 for k in pr}:
         why = 'the candidates of the pairwise dictionary changed: %s -> %s' % (sorted({k for pr in d0 for k in pr}), sorted({k for pr in d1 for k in pr}))
     if not why and case.get('rule'):
         import votelib.evaluate.condorcet as cd
@@ -780,13 +791,18 @@ def rc_streams(ctx, count, rng):
             import votelib.evaluate.condorcet as cd
             r = common.call_impl(lambda: cd.EVALUATORS[rule].evaluate({(cname(a), cname(c)): k for (a, c), k in rc_convert(prof).items()}, 1), 10)
             w0 = sole_winner(r[1]) if r[0] == 'ok' else None
-        moves = [(bi, i, j) for bi, (b, _) in enumerate(prof) for i, it in enumerate(b) if not isinstance(it, list) and (w0 is None or it == w0)
+        moves = [(bi, i, j, None) for bi, (b, _) in enumerate(prof) for i, it in enumerate(b) if not isinstance(it, list) and (w0 is None or it == w0)
                  for j in range(i)]
+        moves += [(bi, i, j, m) for bi, (b, _) in enumerate(prof) for i, it in enumerate(b) if isinstance(it, list) and len(it) > 1
+                  for m in it if (w0 is None or m == w0) for j in range(i + 1)]
         rng.shuffle(moves)
-        for bi, i, j in moves[:4]:
+        for bi, i, j, member in moves[:4]:
             wt = prof[bi][1]
             for x in {1, wt} if wt >= 1 else {0}:
                 case = dict(kind='rc-move', profile=prof, ballot=bi, i=i, j=j, x=x, rule=rule)
+                if member is not None:
+                    case.update(member=member, plain_rest=rng.random() < 0.5)
+                    ctx.dist['rc-move:leaves-a-shared-rank'] += 1
                 n += 1
                 ctx.evaluations += 1
                 ctx.nontrivial.add(common.case_hash(case))
@@ -794,7 +810,7 @@ def rc_streams(ctx, count, rng):
                     ctx.dist['rc-move:jumps-a-shared-rank'] += 1
                 if rc_move_check(ctx, 'rc-move-exact', case):
                     bad += 1
-                elif rng.random() < 0.15:
+                elif member is None and rng.random() < 0.15:
                     b = prof[bi][0]
                     ties.append(dict(unit='hybrid', method='to_condorcet', n=1,
                                      profile=rc_replace(prof, bi, b[:j] + [b[i]] + b[j:i] + b[i + 1:], x)))
